@@ -46,6 +46,10 @@ pub struct Case {
     pub base_fajr_interval: Option<F>,
     #[serde(default)]
     pub base_isha_interval: Option<F>,
+    /// explicit weather used for the base and the perturbed run alike (not for the two weather kinds): the relations
+    /// between derived times (Imsaak = Fajr - interval, Fajr = Shurooq - interval, ...) must hold under any weather
+    #[serde(default)]
+    pub base_weather: Option<WeatherSpec>,
 }
 
 /// Policies under which "the Fajr angle moves only Fajr and Imsaak, the Isha angle only Isha" can be stated
@@ -109,8 +113,9 @@ impl Prop for C12 {
             1 => Just(Perturb::DefaultWeather),
         ];
         let base_iv = || prop_oneof![6 => Just(None), 2 => (1.0..=120.0f64).prop_map(|x| Some(F(x))), 1 => prop_oneof![Just(Some(F(120.0))), Just(Some(F(1.0))), Just(Some(F(90.0)))]];
-        let general = (gen::site(62.0, 2.0), 0u8..9, any::<bool>(), gen::date(), perturb, 0u8..8, base_iv(), base_iv())
-            .prop_map(|(site, method, default_policy, date, perturb, angle_policy, base_fajr_interval, base_isha_interval)| Case {
+        let base_weather = prop_oneof![2 => Just(None), 1 => gen::weather_opt()];
+        let general = (gen::site(62.0, 2.0), 0u8..9, any::<bool>(), gen::date(), perturb, 0u8..8, base_iv(), base_iv(), base_weather)
+            .prop_map(|(site, method, default_policy, date, perturb, angle_policy, base_fajr_interval, base_isha_interval, base_weather)| Case {
                 site,
                 method,
                 default_policy,
@@ -119,6 +124,7 @@ impl Prop for C12 {
                 angle_policy,
                 base_fajr_interval,
                 base_isha_interval,
+                base_weather,
             })
             .boxed();
         // short nights: |lat| 59.5-62 within two weeks of the local summer solstice, with Fajr, Isha and Imsaak intervals
@@ -137,6 +143,7 @@ impl Prop for C12 {
                     angle_policy: 0,
                     base_fajr_interval: Some(F(fi)),
                     base_isha_interval: Some(F(ii)),
+                    base_weather: None,
                 })
             })
             .boxed();
@@ -173,8 +180,12 @@ impl Prop for C12 {
                 st.class("base_with_user_intervals");
             }
         }
-        prime(&c.site, &spec, c.date, None, prime_selector(&c.site, c.date));
-        let base = compute(&c.site, &spec, c.date, None);
+        let bw: Option<WeatherSpec> = if matches!(c.perturb, Perturb::Weather(_) | Perturb::DefaultWeather) { None } else { c.base_weather };
+        if bw.is_some() {
+            st.class("base_with_explicit_weather");
+        }
+        prime(&c.site, &spec, c.date, bw, prime_selector(&c.site, c.date));
+        let base = compute(&c.site, &spec, c.date, bw);
         let mut nontrivial = false;
         // resolve the constructed offset into an ordinary one
         let resolved;
@@ -213,7 +224,7 @@ impl Prop for C12 {
                 let mut m = [F(0.0); 7];
                 m[*key as usize] = *minutes;
                 s2.minutes = Some(m);
-                let o = compute(&c.site, &s2, c.date, None);
+                let o = compute(&c.site, &s2, c.date, bw);
                 let pr = PRAYERS[*key as usize];
                 let want = minutes.0 * 60.0;
                 let moved_ok = |p: Prayer| -> Result<bool, Failure> {
@@ -269,7 +280,7 @@ impl Prop for C12 {
                 } else {
                     s2.isha_interval = Some(*iv);
                 }
-                let o = compute(&c.site, &s2, c.date, None);
+                let o = compute(&c.site, &s2, c.date, bw);
                 let (target, anchor, name) = if fajr { (Prayer::Fajr, Prayer::Shurooq, "fajr-interval") } else { (Prayer::Isha, Prayer::Maghrib, "isha-interval") };
                 if fajr {
                     unchanged_except(&base, &o, &[Prayer::Fajr, Prayer::Imsaak], name)?;
@@ -310,7 +321,7 @@ impl Prop for C12 {
             Perturb::ImsaakInterval(iv) => {
                 let mut s2 = spec.clone();
                 s2.imsaak_interval = Some(*iv);
-                let o = compute(&c.site, &s2, c.date, None);
+                let o = compute(&c.site, &s2, c.date, bw);
                 unchanged_except(&base, &o, &[Prayer::Imsaak], "imsaak-interval")?;
                 match (o[&Prayer::Fajr], o[&Prayer::Imsaak]) {
                     (Ok(f), Ok(im)) => {
@@ -341,7 +352,7 @@ impl Prop for C12 {
             Perturb::SchoolSwap => {
                 let mut s2 = spec.clone();
                 s2.school = Some(if spec.school_k() == 1.0 { 2 } else { 1 });
-                let o = compute(&c.site, &s2, c.date, None);
+                let o = compute(&c.site, &s2, c.date, bw);
                 unchanged_except(&base, &o, &[Prayer::Asr], "school")?;
                 if let (Some(a), Some(b)) = (t(&base, Prayer::Asr), t(&o, Prayer::Asr)) {
                     if a == b {
@@ -362,14 +373,14 @@ impl Prop for C12 {
                 } else {
                     s2.isha_angle = Some(F(new));
                 }
-                let o = compute(&c.site, &s2, c.date, None);
+                let o = compute(&c.site, &s2, c.date, bw);
                 if spec.policy == gen::P_ANGLE {
                     // AngleBased acts as soon as any time is missing: compare only when that trigger is the same in both runs
                     let mut n1 = spec.clone();
                     n1.policy = gen::P_NONE;
                     let mut n2 = s2.clone();
                     n2.policy = gen::P_NONE;
-                    let (c1, c2) = (compute(&c.site, &n1, c.date, None), compute(&c.site, &n2, c.date, None));
+                    let (c1, c2) = (compute(&c.site, &n1, c.date, bw), compute(&c.site, &n2, c.date, bw));
                     let inv = |t: &Times| PRAYERS.iter().skip(1).any(|p| t[p].is_err());
                     if inv(&c1) != inv(&c2) {
                         st.skip("angle_based_trigger_differs_between_the_two_runs");
